@@ -57,8 +57,57 @@ let parse_op s =
   | ["des"; l] -> Some (LDestroy (ptr l), true)
   | _ -> None
 
-(* boundary classes, judged on the specification state before the operation *)
-let bump tbl k = Hashtbl.replace tbl k ()
+(* boundaries of the proofs' case splits, judged on the specification state before the
+   operation; totals are printed as STAT lines when the driver exits *)
+let totals : (string, int) Hashtbl.t = Hashtbl.create 32
+let bump seen k =
+  Hashtbl.replace seen k ();
+  Hashtbl.replace totals k (1 + (try Hashtbl.find totals k with Not_found -> 0))
+let () = at_exit (fun () ->
+  let ks = List.sort compare (Hashtbl.fold (fun k _ acc -> k :: acc) totals []) in
+  List.iter (fun k -> Printf.printf "STAT llist-%s %d\n" k (Hashtbl.find totals k)) ks)
+
+let items_of s l = match ll_sp_list s l with Some sl -> Some sl.sl_items | None -> None
+let where s n = match ll_locate s n with
+  | Some (l, p) -> (match items_of s l with Some it -> Some (l, int_of_nat p, List.length it) | None -> None)
+  | None -> None
+
+let boundaries seen s o (r : ll_res) =
+  let b = bump seen in
+  let pos p len = if len = 1 then "only" else if p = 0 then "head" else if p = len - 1 then "tail" else "mid" in
+  (match o, r with
+   | LCreate (false, _), _ | (LInsFirst (false, _, _) | LInsLast (false, _, _) | LInsBefore (false, _, _) | LInsAfter (false, _, _)), RNode None -> b "allocfail"
+   | _ -> ());
+  (match r with RSkip -> b "skip-dead-arg" | _ -> ());
+  match o, r with
+  | LInsFirst (_, Some l, _), RNode (Some _) | LInsLast (_, Some l, _), RNode (Some _) ->
+    (match items_of s l with Some [] -> b "ins-empty" | _ -> b "ins-end")
+  | LInsBefore (_, Some n, _), RNode (Some _) ->
+    (match where s n with Some (_, p, len) -> b ("ib-" ^ pos p len) | None -> ())
+  | LInsAfter (_, Some n, _), RNode (Some _) ->
+    (match where s n with Some (_, p, len) -> b ("ia-" ^ pos p len) | None -> ())
+  | (LInsFirst (_, None, _) | LInsLast (_, None, _) | LInsBefore (_, None, _) | LInsAfter (_, None, _)), _ -> b "null-arg"
+  | (LInsFirst _ | LInsLast _ | LInsBefore _ | LInsAfter _), RNode None -> b "null-val-or-allocfail"
+  | (LClaim (Some n) | LNodeDestroy (Some n)), (RVal _ | RCalls _) ->
+    (match where s n with Some (_, p, len) -> b ("rm-" ^ pos p len) | None -> ())
+  | (LMvFirst (Some n, Some l2) | LMvLast (Some n, Some l2)), RVoid ->
+    (match where s n, items_of s l2 with
+     | Some (l1, p, len), Some it2 ->
+       b ("mv-" ^ pos p len);
+       if l1 = l2 then b "mv-same-list" else if it2 = [] then b "mv-into-empty" else b "mv-other";
+       (match o with LMvFirst _ -> b "mv-first" | _ -> b "mv-last")
+     | _ -> ())
+  | (LNodeFirst (Some l) | LNodeLast (Some l) | LFirstVal (Some l) | LLastVal (Some l) | LLen (Some l)
+    | LClear (Some l) | LDestroy (Some l) | LNodeIdx (Some l, _)), _ ->
+    (match items_of s l, o with
+     | Some [], _ -> b "op-on-empty"
+     | Some _, LClear _ -> b "clear-nonempty"
+     | Some _, LDestroy _ -> b "destroy-nonempty"
+     | _ -> ())
+  | (LNodeNext (Some n)), RNode None -> b "next-of-tail"
+  | (LNodePrev (Some n)), RNode None -> b "prev-of-head"
+  | LReplace (Some _, _), RCalls _ -> b "replace"
+  | _ -> ()
 
 let run_llist ops =
   let h = ref ll_heap_empty and s = ref ll_spec_empty in
@@ -67,22 +116,26 @@ let run_llist ops =
   let nontriv = ref 0 in
   let seen = Hashtbl.create 8 in
   let emit_m x = mt := x :: !mt and emit_s x = st := x :: !st in
+  let opidx = ref (-1) in
   List.iter (fun op ->
-    if op <> "" && not !ub then
+    if op <> "" && not !ub then begin
+    incr opidx;
     match (try parse_op op with _ -> None) with
     | None -> emit_m "BADOP"; emit_s "BADOP"
     | Some (o, mutating) ->
+      let mutating = mutating && (!opidx < 120 || !opidx mod 8 = 0) in
+      let counted = (match o with LCreate _ | LInsFirst _ | LInsLast _ | LInsBefore _ | LInsAfter _ | LClaim _
+                                 | LNodeDestroy _ | LReplace _ | LMvFirst _ | LMvLast _ | LClear _ | LDestroy _ -> true
+                                 | _ -> false) in
       (* spec *)
       let (s', r) = ll_spec_step !s o in
       emit_s (res_str r);
+      boundaries seen !s o r;
       (match o, r with
-       | (LMvFirst _ | LMvLast _), RVoid -> bump seen "mv"
-       | (LInsBefore _ | LInsAfter _), RNode (Some _) -> bump seen "mid"
-       | (LClaim _ | LNodeDestroy _), (RVal _ | RCalls _) -> bump seen "rm"
-       | _ -> ());
-      (match r with
-       | RSkip | RNode None | RList None -> ()
-       | _ -> if mutating then incr nontriv);
+       | _, (RSkip | RNode None | RList None) -> ()
+       | (LMvFirst (None, _) | LMvLast (None, _) | LMvFirst (_, None) | LMvLast (_, None)
+         | LClaim None | LNodeDestroy None | LReplace (None, _) | LClear None | LDestroy None), _ -> ()
+       | _ -> if counted then incr nontriv);
       s := s';
       if mutating then emit_s (obs_str (ll_spec_observe !s));
       (* model *)
@@ -95,17 +148,18 @@ let run_llist ops =
             | Err _ -> ub := true; emit_m "ERR"
             | UB _ -> ub := true; emit_m "UB")
        | Err _ -> ub := true; emit_m "ERR"
-       | UB _ -> ub := true; emit_m "UB")) ops;
+       | UB _ -> ub := true; emit_m "UB") end) ops;
   (match ll_observe !h with
    | Ok v -> emit_m ("end" ^ obs_str v)
    | _ -> ub := true; emit_m "UB");
   emit_s ("end" ^ obs_str (ll_spec_observe !s));
+  let has p = Hashtbl.fold (fun k _ acc -> acc || (String.length k >= String.length p && String.sub k 0 (String.length p) = p)) seen false in
   let cls =
     if !ub then "model-ub"
     else if !nontriv < 2 then "trivial"
-    else "llist" ^ (if Hashtbl.mem seen "mv" then "-mv" else "")
-                 ^ (if Hashtbl.mem seen "mid" then "-mid" else "")
-                 ^ (if Hashtbl.mem seen "rm" then "-rm" else "") in
+    else "llist" ^ (if has "mv-" then "-mv" else "")
+                 ^ (if has "ib-" || has "ia-" then "-insmid" else "")
+                 ^ (if has "rm-" then "-rm" else "") in
   (String.concat " " (List.rev !mt), String.concat " " (List.rev !st), cls)
 
 let () = Dsa_reg.register "llist" run_llist
